@@ -9,7 +9,7 @@ enumerated and no solver is involved: this is value numbering plus polynomial al
 import ast
 from fractions import Fraction
 
-from .model import AnalysisError, CLASS_OF
+from .model import AnalysisError, body_nodoc, CLASS_OF
 from .cfg import CFG
 
 ONE = ((), )  # placeholder (unused)
@@ -176,6 +176,14 @@ class Ctx:
         if head[0] == "unpack" and len(head) == 2 and isinstance(head[1], int) and not isinstance(head[1], bool) and len(args) == 1:
             # element k of a tuple assignment `a, b = X` is X[k]: one form for both spellings
             head, args = ("sub",), (args[0], self.const(head[1]))
+        if head == ("gphi",) and len(args) > 2:
+            # alternatives are a set: kept in one order whatever order they are handed in (terms rebuilt by substitution)
+            pairs = sorted(zip(args[0::2], args[1::2]), key=lambda gt: (gt[1].key(), gt[0].key()))
+            args = [x for gt in pairs for x in gt]
+        elif head in (("and",), ("or",)) and len(args) > 1:
+            args = sorted(args, key=lambda x: x.key())
+        elif head[0] == "cmp" and head[1] in ("eq", "ne", "is", "isnot") and len(args) == 2 and args[0].key() > args[1].key():
+            args = (args[1], args[0])
         return self.var(self.atom(head, args, typ))
 
     def var(self, aid):
@@ -565,9 +573,91 @@ class Evaluator:
                     break
             t = self._t(test, owner, None)
             parts.append(t if pol else self._not(t))
+        if self.exact:
+            parts += self._structural_reach(stmt)
         res = self._bool("and", parts) if parts else self.ctx.mk(("const", True))
         self._cache[key] = res
         return res
+
+    def _test_term(self, test):
+        owner = None
+        for n in self.cfg.nodes:
+            if n.kind == "test" and n.ast is test:
+                owner = n
+                break
+        return self._t(test, owner, None)
+
+    def _leaves(self, st):
+        """condition under which executing statement st (once reached) does not continue with the statement after it:
+        return / raise / continue / break, possibly inside branches.  Loops and try statements that hide such exits are
+        not looked into (their contribution is dropped: the result is then weaker, never wrong)."""
+        c = self.ctx
+        if isinstance(st, (ast.Return, ast.Raise, ast.Continue, ast.Break)):
+            return c.mk(("const", True))
+        if isinstance(st, ast.If):
+            b, o = self._leaves_block(st.body), self._leaves_block(st.orelse)
+            fb = (c.head_of(b) or ("",))[:2] == ("const", False)
+            fo = (c.head_of(o) or ("",))[:2] == ("const", False)
+            if fb and fo:
+                return b
+            t = self._test_term(st.test)
+            alts = []
+            if not fb:
+                alts.append(self._bool("and", [t, b]))
+            if not fo:
+                alts.append(self._bool("and", [self._not(t), o]))
+            return alts[0] if len(alts) == 1 else self._bool("or", alts)
+        if isinstance(st, ast.With):
+            return self._leaves_block(st.body)
+        return c.mk(("const", False))
+
+    def _leaves_block(self, stmts):
+        c = self.ctx
+        alts = []
+        for s_ in stmts:
+            l_ = self._leaves(s_)
+            h = c.head_of(l_)
+            if h and h[0] == "const" and h[1] is False:
+                continue
+            if h and h[0] == "const" and h[1] is True:
+                return l_
+            alts.append(l_)
+        if not alts:
+            return c.mk(("const", False))
+        return alts[0] if len(alts) == 1 else self._bool("or", alts)
+
+    def _structural_reach(self, stmt):
+        """the exact reach condition of stmt as far as branches and guards decide it: at every nesting level the branch
+        taken and `no earlier statement of the block left it` (a guard that sits inside a branch contributes
+        `not (branch and guard)`, which the literals shared by all paths cannot express)"""
+        parts = []
+        cur = stmt
+        while True:
+            p = self.cfg.parent.get(id(cur))
+            if p is None:
+                break
+            par, fld = p
+            if par is None:
+                block = body_nodoc(self.cfg.fn)
+            elif isinstance(par, ast.ExceptHandler):
+                block = par.body
+            else:
+                block = getattr(par, fld, None)
+            if isinstance(block, list):
+                for s_ in block:
+                    if s_ is cur:
+                        break
+                    if isinstance(s_, ast.If) and not (len(s_.body) == 1 and not s_.orelse and
+                                                       isinstance(s_.body[0], (ast.Return, ast.Raise, ast.Continue, ast.Break))):
+                        # (a plain guard is one of the shared literals already)
+                        l_ = self._leaves(s_)
+                        h = self.ctx.head_of(l_)
+                        if not (h and h[0] == "const" and h[1] is False):
+                            parts.append(self._not(l_))
+            if par is None:
+                break
+            cur = par
+        return parts
 
     def _fwd_reach(self, a):
         key = ("fwd", a)
@@ -1168,6 +1258,13 @@ class Evaluator:
         if name in ("eq", "ne", "is", "isnot"):
             if a.key() > b.key():
                 a, b = b, a
+        if self.exact and name in ("in", "notin"):
+            # membership in a short literal collection of constants is a disjunction of equalities (x in ["a"] is x == "a")
+            hb = c.head_of(b)
+            if hb and hb[0] in ("list", "tuple", "set") and 1 <= len(c.args_of(b)) <= 4 and \
+                    all(x.is_const() or (c.head_of(x) or ("",))[0] in ("str", "const") for x in c.args_of(b)):
+                parts = [self._cmpn("eq" if name == "in" else "ne", a, x) for x in c.args_of(b)]
+                return parts[0] if len(parts) == 1 else self._bool("or" if name == "in" else "and", parts)
         return c.mk(("cmp", name), (a, b))
 
     # ------------------------------------------------------------ attributes
